@@ -2749,6 +2749,11 @@ impl Formatter {
         return format!("[]");
       }
     }
+    if !self.html {
+      // Plain text: rows in source order, separated by `;`
+      let rows: Vec<String> = node.rows.iter().map(|row| self.matrix_row(row)).collect();
+      return format!("[{}]", rows.join("; "));
+    }
     let column_count = node.rows[0].columns.len(); // Assume all rows have the same number of columns
 
     for col_index in 0..column_count {
